@@ -11,3 +11,4 @@ for id in "$@"; do
   echo "rc=$?"
 done
 cd /repo && git checkout -- . && git clean -fdq crates
+(cd /verif/harness && cargo build --release --offline --quiet 2>/dev/null)
